@@ -217,3 +217,25 @@ Print Assumptions T08h_bound_active.
 
 Example T08h_example : exists b, is_bound_active 1 (Some 1) None 0 = Some b.
 Proof. destruct (is_bound_active_spec 1 (Some 1) None 0) as (b & H & _); [lra|]. exists b. exact H. Qed.
+
+(* ---- T08i. the same raw-results object processed again and again (reported, raw inputs replaced, reported
+        again...): with the attributes that bioResults._clear_stats resets (list generated from the source; the
+        extractor checks it is called first by _calculate_stats), after every processing a derived attribute
+        (std err / t / p of a family, its matrix, its correlation matrix, the second-order table) is present
+        iff the matrix of its family is held NOW: classical, robust and the table iff the Hessian is held,
+        bootstrap iff Hessian and bootstrap sample are held -- whatever the earlier history. *)
+Theorem T08i_reprocessing : forall (st : dstate) (step : bool * bool) (a : attr),
+  In a derived_attrs -> process clear_stats_attrs step st a = held_now step a.
+Proof. exact process_spec. Qed.
+Print Assumptions T08i_reprocessing.
+
+Theorem T08i_history : forall (hist : list (bool * bool)) (st : dstate) (step : bool * bool) (a : attr),
+  In a derived_attrs -> run_history clear_stats_attrs (hist ++ [step]) st a = held_now step a.
+Proof. exact run_history_spec. Qed.
+Print Assumptions T08i_history.
+
+(* non-vacuity, and what goes wrong without the clearing step *)
+Example T08i_example :
+  run_history clear_stats_attrs [(true, true); (false, false)] (fun _ => false) (A_beta F_bootstrap_tTest) = false /\
+  run_history [] [(true, true); (false, false)] (fun _ => false) (A_beta F_bootstrap_tTest) = true.
+Proof. split; reflexivity. Qed.
